@@ -88,35 +88,48 @@ def split_command(vc, cmd, op, body_native=None):
         except ValueError:
             return False, [], has_body
         return " ".join(shlex.quote(w) for w in words) == prefix, words, has_body
+    import re
     import z3
     from pyvc.core import simp, str_value_to_pystr
     ps = _pieces(simp(cmd.t))
-    words, has_body, i = [], False, 0
 
     def is_app(p, name):
         return z3.is_app(p) and p.decl().kind() == z3.Z3_OP_UNINTERPRETED and p.decl().name() == name
 
-    expect_word = True
-    while i < len(ps):
-        p = ps[i]
-        if expect_word:
-            if not is_app(p, "sh_quote"):
-                return False, words, has_body
-            words.append(SStr(p.arg(0)))
-            expect_word = False
-        else:
-            if not z3.is_string_value(p):
-                return False, words, has_body
-            lit = str_value_to_pystr(p)
-            if lit == " ":
-                expect_word = True
-            elif lit == op and i + 1 == len(ps) - 1 and is_app(ps[i + 1], "export_body"):
-                has_body = True
-                i += 1
+    # token stream: quoted words, constant words made of characters the shell does not interpret (what quote() leaves bare),
+    # single blanks, the body operator directly followed by the BODY token.  Anything else — in particular constant text
+    # containing quote characters around a non-constant fragment (hand-made quoting) — is not well formed.
+    toks = []
+    for i, p in enumerate(ps):
+        if is_app(p, "sh_quote"):
+            toks.append(("word", SStr(p.arg(0))))
+        elif is_app(p, "export_body"):
+            toks.append(("body", None))
+        elif z3.is_string_value(p):
+            text = str_value_to_pystr(p)
+            if text.endswith(op) and i + 1 < len(ps) and is_app(ps[i + 1], "export_body"):
+                text = text[: -len(op)]
+                tail = [("op", None)]
             else:
-                return False, words, has_body
-        i += 1
-    return (not expect_word or not ps), words, has_body
+                tail = []
+            for chunk in re.findall(r" |[^ ]+", text):
+                if chunk == " ":
+                    toks.append(("sp", None))
+                elif re.fullmatch(r"[A-Za-z0-9_@%+=:,./-]+", chunk):
+                    toks.append(("word", SStr(chunk)))
+                else:
+                    return False, [], False
+            toks += tail
+        else:
+            return False, [], False
+    words, has_body = [], False
+    kinds = [k for k, _ in toks]
+    if kinds[-2:] == ["op", "body"]:
+        has_body = True
+        toks, kinds = toks[:-2], kinds[:-2]
+    ok = len(kinds) % 2 == 1 and all(k == ("word" if j % 2 == 0 else "sp") for j, k in enumerate(kinds))
+    words = [v for k, v in toks if k == "word"]
+    return ok, words, has_body
 
 
 def lit(w):
@@ -232,7 +245,15 @@ def mk_flow(vc, req, peer):
 # curl
 
 
-@scenario("curl_command", functions=[EX + "curl_command"])
+# values with shell metacharacters for every text field: used only to obtain counter-models that replay (quote() is canonical on
+# harmless text, so a hand-quoted fragment is only distinguishable on such values)
+SHELL_TEXTS = [{"pretty_host": "a'; echo x > CANARY; '", "server_ip": "10.0.0.1", "url": "http://h/$(id)", "method": "P'OST", "h0_name": "x-a", "h0_value": "it's",
+                "h1_name": "x-b", "h1_value": "`id`", "text": "b'ody", "content": b"b'ody", "host": "h"},
+               {"pretty_host": "a'b c", "server_ip": "::1", "url": "http://h/ a", "method": "GET", "h0_name": "x a", "h0_value": "", "h1_name": "accept-encoding", "h1_value": "gzip",
+                "text": "@x", "content": b"@x", "host": "h"}]
+
+
+@scenario("curl_command", functions=[EX + "curl_command"], candidates=SHELL_TEXTS)
 def s_curl(vc):
     preserve = vc.case("export_preserve_original_ip", [False, True])
     has_peer = vc.case("server_peername", [True, False]) if preserve else False
@@ -310,7 +331,7 @@ def _ORIG_body(vc, req):
 # httpie
 
 
-@scenario("httpie_command", functions=[EX + "httpie_command"])
+@scenario("httpie_command", functions=[EX + "httpie_command"], candidates=SHELL_TEXTS)
 def s_httpie(vc):
     req, pairs, has_body, text = mk_request(vc)
     install_export_env(vc, req)
@@ -516,7 +537,12 @@ def _requests(tier, seed):
     for m in (b"GET", b"POST", b"PUT", b"DELETE", b"HEAD", b"OPTIONS", b"PATCH", b"M-SEARCH"):
         out.append(("method_" + m.decode(), dict(method=m, content=b"")))
         out.append(("method_" + m.decode() + "+body", dict(method=m, content=b"x=1")))
+    for name, te in [("chunked", [b"chunked"]), ("gzip-chunked", [b"gzip, chunked"]), ("two-lines", [b"gzip", b"chunked"]), ("upper", [b"Chunked"]), ("gzip-chunked-nospace", [b"gzip,chunked"])]:
+        out.append(("te_" + name, dict(headers=[(b"transfer-encoding", v) for v in te] + [(b"x-a", b"1")], content=b"hello chunked world")))
+        out.append(("te_" + name + "/empty", dict(headers=[(b"transfer-encoding", v) for v in te], content=b"")))
     out.append(("host_empty", dict(host="", headers=[(b"x-a", b"1")])))
+    for i, h in enumerate([b"a'b.example", b"x'; echo x > CANARY; '", b"$(echo x > CANARY)", b"a b", b"`echo x > CANARY`"]):
+        out.append((f"host_header_meta{i}", dict(headers=[(b"Host", h), (b"x-a", b"1")])))
     out.append(("host_header_same", dict(headers=[(b"Host", b"example.com"), (b"content-length", b"3")], content=b"abc")))
     out.append(("host_header_other", dict(headers=[(b"Host", b"other.example"), (b"x", b"y")])))
     rnd = random.Random(seed)
@@ -653,6 +679,7 @@ def bounded(tier, seed):
                     try:
                         head, _, body = raw.partition(b"\r\n\r\n")
                         back = h1read.read_request_head(head.split(b"\r\n"))
+                        body = _read_framed_body(h1read, back, body)     # the body as a reader of the message recovers it
                         same = (back.method == req.method and back.path == req.path and back.headers.fields == req_full.headers.fields and body == req.raw_content and back.http_version == req.http_version)
                         if not same:
                             weird = label.startswith(("method:", "header_name:", "path:", "random")) or "space" in label or "blank" in label
@@ -664,6 +691,32 @@ def bounded(tier, seed):
     finally:
         shutil.rmtree(tmp, ignore_errors=True)
     return b
+
+
+def _read_framed_body(h1read, request, rest):
+    """message body of a parsed HTTP/1 request head + following bytes, by RFC 9112 section 6.3 as implemented by the reader's
+    expected_http_body_size: chunked => decode the chunks (ValueError if they are malformed), else Content-Length bytes"""
+    size = h1read.expected_http_body_size(request)
+    if size is None:
+        out, pos = b"", 0
+        while True:
+            eol = rest.find(b"\r\n", pos)
+            if eol < 0:
+                raise ValueError("chunk size line missing")
+            n = int(rest[pos:eol].split(b";")[0].strip(), 16)
+            pos = eol + 2
+            if n == 0:
+                break
+            if rest[pos + n:pos + n + 2] != b"\r\n":
+                raise ValueError("chunk data not terminated by CRLF")
+            out += rest[pos:pos + n]
+            pos += n + 2
+        return out
+    if size == -1:
+        return rest
+    if len(rest) != size:
+        raise ValueError(f"body has {len(rest)} bytes, framing says {size}")
+    return rest
 
 
 def _check_curl(b, nv, argv, req, hdrs, text, f, preserve, inp, shn):
